@@ -131,19 +131,23 @@ func VReplayStore(task engine.SeqTask) (res engine.SeqResult) {
 			if op.LO {
 				pred = h.KeyURI("p")
 			}
-			r1, err := w.Store.GetManyRelatedEntitiesBatch([]string{h.URI("e1")}, pred, op.LO, nil, 1, true)
+			start := "e1"
+			if op.LO {
+				start = "e2" // the references of the content pool point at e2 and e3
+			}
+			r1, err := w.Store.GetManyRelatedEntitiesBatch([]string{h.URI(start)}, pred, op.LO, nil, 1, true)
 			if err != nil || len(r1.Cont) == 0 {
 				res.Skip, res.Key = true, "skip" // nothing to continue
 				return
 			}
-			pq.cont, pq.label = r1.Cont, fmt.Sprintf("e1/%s/inverse=%v started after operation %d", map[bool]string{false: "*", true: "p"}[op.LO], op.LO, i)
+			pq.cont, pq.label = r1.Cont, fmt.Sprintf("%s/%s/inverse=%v started after operation %d", start, map[bool]string{false: "*", true: "p"}[op.LO], op.LO, i)
 			pq.got, _ = h.relSet(r1.Relations)
 			pq.want = map[string]bool{}
 			for e := range h.M.Graph(nil, -1) {
-				if !op.LO && e.Src == "e1" {
+				if !op.LO && e.Src == start {
 					pq.want[e.Pred+">"+e.Dst] = true
 				}
-				if op.LO && e.Dst == "e1" && e.Pred == "p" {
+				if op.LO && e.Dst == start && e.Pred == "p" {
 					pq.want[e.Pred+">"+e.Src] = true
 				}
 			}
